@@ -29,6 +29,7 @@ func c14(c *Ctx) {
 	c14R5(c)
 	c14R6(c)
 	valsetCacheRule(c, "R7")
+	c14R8(c)
 }
 
 func c14R3(c *Ctx) {
